@@ -26,6 +26,8 @@ class float(complex):
 
     def __neg__(self) -> float: pass
 
+    def __pos__(self) -> float: pass
+
     ## TODO add optional arguments and names arguments
     ## TODO re-add modulo
     # def __pow__(self, power: complex) -> complex: pass
